@@ -444,6 +444,13 @@ class World:
                 sc('C', [['mk', h, c, True, True, n + 4]])
                 sc('C', [['del', c]])
                 sc('C', [['addState', h, c, n + 5]])
+                # states of one descriptor in every association stage (also unbound ones), then the descriptor changes: every one
+                # of them follows its version
+                sc('C', [['mk', h, c + '_a', True, True, n + 6], ['mk', h, c + '_p', True, False, n + 7]])
+                sc('C', [['disassociateAll', h, None]])
+                sc('C', [['mk', h, c + '_b', True, True, n + 8], ['get', c + '_p'], ['setAssoc', c + '_p', 'pre']])
+                sc('D', [['getDescr', h], ['setDescrBody', h, n + 9]])
+                sc('D', [['writeEntity', h, n + 10, 'keep', False]])
             if leaf:
                 sc('D', [['removeDescr', h]])
                 sc('D', [['addDescr', h, None, True]])
